@@ -477,9 +477,7 @@ def _inline_call(ctx: Ctx, func, call: ast.Call, at, seen, defstmt, _depth=[0]) 
     callee = None
     skip_self = 0
     if isinstance(call.func, ast.Name):
-        r = ctx.chk.repo.resolve_name(module, call.func.id)
-        if r and isinstance(r[1], FuncNode):
-            callee = r[1]
+        callee = _local_function(func, call.func, at, ctx.chk.repo)  # nested def or module-level function
     elif isinstance(call.func, ast.Attribute) and isinstance(call.func.value, ast.Name) and call.func.value.id in ("self", "cls"):
         c = enclosing_class(func)
         if c is not None:
@@ -488,15 +486,19 @@ def _inline_call(ctx: Ctx, func, call: ast.Call, at, seen, defstmt, _depth=[0]) 
                 callee = r[1]
                 deco = {norm(d) for d in callee.decorator_list}
                 skip_self = 0 if "staticmethod" in deco else 1
-    if callee is None or call.keywords or any(isinstance(a, ast.Starred) for a in call.args):
+    if callee is None or any(k.arg is None for k in call.keywords) or any(isinstance(a, ast.Starred) for a in call.args):
         return None
     params = [a.arg for a in callee.args.posonlyargs + callee.args.args][skip_self:]
-    if len(call.args) > len(params):
+    by_keyword = [a.arg for a in callee.args.args + callee.args.kwonlyargs]
+    if len(call.args) > len(params) or any(k.arg not in by_keyword or k.arg in params[: len(call.args)] for k in call.keywords):
         return None
     rets = [n for n in walk_local(callee) if isinstance(n, ast.Return) and n.value is not None]
     if not rets:
         return None
     argvals = {p: evalstr(ctx, func, a, at, seen, defstmt) for p, a in zip(params, call.args)}
+    for k in call.keywords:
+        argvals[k.arg] = evalstr(ctx, func, k.value, at, seen, defstmt)
+    params = params + [a.arg for a in callee.args.kwonlyargs]
     out = Val()
     _depth[0] += 1
     try:
@@ -556,7 +558,8 @@ def _for_value(ctx: Ctx, func, it: ast.AST, loop, node) -> Val:
 def _branch_label(func, stmt) -> str:
     if stmt is None:
         return ""
-    cfg = cfg_of(func)
+    # the statement may stand in a helper that was inlined: label it by its own function's branches
+    cfg = cfg_of(enclosing_function(stmt) or func)
     labs = []
     for e, pol in cfg.conditions(stmt):
         if pol and isinstance(e, ast.Compare) and len(e.ops) == 1 and isinstance(e.ops[0], ast.Eq):
